@@ -493,7 +493,7 @@ func reportFootnotes(context *layoutContext, footnotesHeight pr.Float) {
 	}
 	// Report and count footnotes
 	reportedFootnotes := 0
-	for context.currentFootnoteArea.MarginHeight() > footnotesHeight {
+	for context.currentFootnoteArea.MarginHeight() > footnotesHeight && len(context.currentPageFootnotes) != 0 {
 		context.reportFootnote(context.currentPageFootnotes[len(context.currentPageFootnotes)-1])
 		reportedFootnotes += 1
 	}
